@@ -16,6 +16,7 @@ pub mod c13;
 pub mod c14;
 pub mod c15;
 pub mod c16;
+pub mod c17;
 pub mod c18;
 pub mod c19;
 pub mod c20;
@@ -49,6 +50,7 @@ pub fn all() -> Vec<Prop> {
         Prop { id: "C15", run: c15::run, subs: c15::subs, rule: c15::RULE, assumptions: c15::ASSUMPTIONS },
         Prop { id: "C16", run: c16::run, subs: c16::subs, rule: c16::RULE, assumptions: c16::ASSUMPTIONS },
         Prop { id: "C18", run: c18::run, subs: c18::subs, rule: c18::RULE, assumptions: c18::ASSUMPTIONS },
+        Prop { id: "C17", run: c17::run, subs: c17::subs, rule: c17::RULE, assumptions: c17::ASSUMPTIONS },
     ]
 }
 
